@@ -32,6 +32,7 @@ VARIABLES l, l0,
           pli, rem, rdone,     \* line of the last CommitBegin (0 = none), real Cache calls since, commit finished
           sync,     \* the model and the real state are comparable in this state
           evb,      \* pod -> line of the real projection logged just before its latest successful Evict (0 = none)
+          phOK,     \* the last Commit left no phantom: no pod changed virtually by this statement without a Cache call for it
           uvOK,     \* the last un-eviction gave the pod back what it had before that Evict
           hid,      \* <<node, pod>>: the pod was re-nominated onto another GPU of the node it is being evicted from; the node
                     \* then counts it twice by design (releasing on the old GPU, nominated on the new one) under ONE entry
@@ -39,7 +40,7 @@ VARIABLES l, l0,
           taint,    \* some property was FALSE in an earlier state of this scenario (drift monitors are then void)
           dmsg      \* first drift noticed by an event handler ("" = none)
 
-tvars == <<vars, l, l0, ri, oi, cps, rbOK, dcOK, pli, rem, rdone, sync, evb, uvOK, hid, drifted, taint, dmsg>>
+tvars == <<vars, l, l0, ri, oi, cps, rbOK, dcOK, pli, rem, rdone, sync, evb, uvOK, phOK, hid, drifted, taint, dmsg>>
 
 real  == Trace[ri].state
 rops  == IF Trace[oi].ev = "Scenario" THEN <<>> ELSE Trace[oi].ops
@@ -74,7 +75,7 @@ TraceInit ==
     /\ act = Lbl("Init", "", "", FALSE, <<>>, 0, "", TRUE)
     /\ cps = [x \in {0} |-> i]
     /\ rbOK = TRUE /\ dcOK = TRUE /\ pli = 0 /\ rem = <<>> /\ rdone = TRUE
-    /\ sync = TRUE /\ evb = [p \in DOMAIN Trace[i].cfg.pods |-> 0] /\ uvOK = TRUE /\ hid = {} /\ drifted = FALSE /\ taint = FALSE /\ dmsg = ""
+    /\ sync = TRUE /\ evb = [p \in DOMAIN Trace[i].cfg.pods |-> 0] /\ uvOK = TRUE /\ phOK = TRUE /\ hid = {} /\ drifted = FALSE /\ taint = FALSE /\ dmsg = ""
 
 Ev == Trace[l]
 \* (observed from the logged call and the logged state before it) Pipeline of a shared pod that the node still
@@ -85,6 +86,13 @@ MovesGpu(e) == /\ Shared(e.p) /\ real.nodes[e.node].pods[e.p].st = "Releasing"
 UnevictPath(e) == real.nodes[e.node].pods[e.p].st # "none" /\ e.upd = 0 /\ ~MovesGpu(e)
 \* everything the session says about one pod: its own record and every node's entry for it
 PodSeen(st, p) == [pod |-> st.pods[p], on |-> [n \in DOMAIN st.nodes |-> st.nodes[n].pods[p]]]
+\* b = real projection when the statement began, a = after Commit returned, em = the Cache calls Commit made:
+\* a pod that this statement changed virtually must have reached the cluster (a successful call for it), and no pod
+\* may be left Allocated (a committed allocation is Binding, a failed or stopped one is Pending again)
+NoPhantom(b, a, em) ==
+  \A p \in DOMAIN a.pods :
+    /\ (a.pods[p].virt = 1 /\ b.pods[p].virt = 0) => \E x \in 1..Len(em) : em[x].p = p /\ em[x].ok
+    /\ (a.pods[p].st = "Allocated") => (b.pods[p].st = "Allocated")
 StillHidden(h, st) == {x \in h : st.nodes[x[1]].pods[x[2]].st = "Pipelined"}
 Here(kind) == l <= Len(Trace) /\ Trace[l].ev = kind
 
@@ -100,6 +108,7 @@ TraceCall ==
      IN
      /\ ri' = l /\ oi' = l /\ sync' = TRUE /\ l' = l + 1
      /\ hid' = StillHidden(hid \cup (IF e.op = "Pipeline" /\ MovesGpu(e) THEN {<<e.node, e.p>>} ELSE {}), e.state)
+     /\ phOK' = IF e.op = "CommitEnd" THEN NoPhantom(Trace[cps[0]].state, e.state, rem) ELSE TRUE
      /\ evb' = IF e.op = "Evict" /\ e.err = 0 THEN [evb EXCEPT ![e.p] = ri] ELSE evb
      /\ uvOK' = IF (e.op = "Unevict" \/ (e.op = "Pipeline" /\ UnevictPath(e))) /\ e.err = 0 /\ evb[e.p] # 0
                 THEN PodSeen(e.state, e.p) = PodSeen(Trace[evb[e.p]].state, e.p) ELSE TRUE
@@ -169,7 +178,7 @@ TraceCache ==
         ELSE /\ dmsg' = IF dmsg = "" THEN "Cache call although the model has no commit step left" ELSE dmsg
              /\ UNCHANGED <<pod, node, job, queue, ops, emitted, ci>>
   /\ sync' = FALSE /\ l' = l + 1
-  /\ UNCHANGED <<ri, oi, cps, rbOK, dcOK, pli, rdone, plan, phase, conv, act, hid, evb, uvOK>>
+  /\ UNCHANGED <<ri, oi, cps, rbOK, dcOK, pli, rdone, plan, phase, conv, act, hid, evb, uvOK, phOK>>
   /\ Keep
 
 \* a hook inside Rollback / Discard / Convert / Commit: only the real state is observed
@@ -177,7 +186,7 @@ TraceH ==
   /\ Here("H")
   /\ ri' = l /\ sync' = FALSE /\ l' = l + 1 /\ hid' = StillHidden(hid, Ev.state)
   /\ UNCHANGED <<pod, node, job, queue, ops, emitted, plan, phase, ci, conv, act,
-                 oi, cps, rbOK, dcOK, pli, rem, rdone, dmsg, evb, uvOK>>
+                 oi, cps, rbOK, dcOK, pli, rem, rdone, dmsg, evb, uvOK, phOK>>
   /\ Keep
 
 (***************************************************************************)
@@ -190,6 +199,9 @@ C13_CommitNetObs == CommitNetOK(rplan, rem, rdone)
 \* un-evicting a pod gives it back exactly what it had before its eviction (status, node, GPU groups, virtual flag,
 \* accepted resources, its entries on the nodes) - whatever the op log says
 C13_UnevictObs == uvOK
+\* a Commit, complete or stopped by a failed bind, leaves nothing of the statement applied in the session that did not
+\* reach the cluster
+C13_NoPhantomObs == phOK
 
 RealPodView == [p \in DOMAIN real.pods |-> [st |-> real.pods[p].st, acc |-> real.pods[p].acc]]
 C14_JobObs   == \A j \in DOMAIN real.jobs : JobCounters(real.jobs[j]) = TruthJob(RealPodView, j)
@@ -212,7 +224,7 @@ C14_NodeBaseObs ==
        /\ r.ug = Sum(all, LAMBDA p : RG(p))
 
 \* StopOn selects the properties whose violation ends a scenario: "C13", "C14" or "all"
-Healthy == /\ (StopOn # "C14") => (C13_RollbackObs /\ C13_DiscardObs /\ C13_CommitNetObs /\ C13_UnevictObs)
+Healthy == /\ (StopOn # "C14") => (C13_RollbackObs /\ C13_DiscardObs /\ C13_CommitNetObs /\ C13_UnevictObs /\ C13_NoPhantomObs)
            /\ (StopOn # "C13") => (C14_JobObs /\ C14_QueueObs /\ C14_VectorObs /\ C14_NodeBaseObs)
 
 (***************************************************************************)
@@ -220,7 +232,7 @@ Healthy == /\ (StopOn # "C14") => (C13_RollbackObs /\ C13_DiscardObs /\ C13_Comm
 (***************************************************************************)
 \* after a property violation (of either family) the real code has left the specified behaviour: the model's
 \* predictions are then not comparable any more (no drift verdict for the rest of the scenario)
-AllC == C13_RollbackObs /\ C13_DiscardObs /\ C13_CommitNetObs /\ C13_UnevictObs /\ C14_JobObs /\ C14_QueueObs /\ C14_VectorObs /\ C14_NodeBaseObs
+AllC == C13_RollbackObs /\ C13_DiscardObs /\ C13_CommitNetObs /\ C13_UnevictObs /\ C13_NoPhantomObs /\ C14_JobObs /\ C14_QueueObs /\ C14_VectorObs /\ C14_NodeBaseObs
 Clean == sync /\ ~taint /\ AllC
 D_Pods   == Clean => RPods(real) = pod
 D_Nodes  == Clean => RNodes(real) = node
@@ -253,7 +265,7 @@ Drift(name, ok) == ok \/ PrintT(<<"DRIFT", name, l0, l, dmsg>>)
 AllD == D_Pods /\ D_Nodes /\ D_Jobs /\ D_Queues /\ D_Ops /\ D_Msg /\ D_NoErr /\ D_CommitErr /\ D_Init /\ D_Shape
 Report ==
   /\ Viol("C13_RollbackObs", C13_RollbackObs) /\ Viol("C13_DiscardObs", C13_DiscardObs) /\ Viol("C13_CommitNetObs", C13_CommitNetObs)
-  /\ Viol("C13_UnevictObs", C13_UnevictObs)
+  /\ Viol("C13_UnevictObs", C13_UnevictObs) /\ Viol("C13_NoPhantomObs", C13_NoPhantomObs)
   /\ Viol("C14_JobObs", C14_JobObs) /\ Viol("C14_QueueObs", C14_QueueObs) /\ Viol("C14_VectorObs", C14_VectorObs)
   /\ Viol("C14_NodeBaseObs", C14_NodeBaseObs)
   /\ drifted \/ ( /\ Drift("D_Pods", D_Pods) /\ Drift("D_Nodes", D_Nodes) /\ Drift("D_Jobs", D_Jobs) /\ Drift("D_Queues", D_Queues)
